@@ -832,8 +832,9 @@ def check_key_lemma(ctx):
                 ok = False
                 for m in sk:
                     if len(m.ast.args) >= 2 and same_name_value(fn, m.ast.args[1], m, key, node) and \
-                            g.path(node, lambda x, m=m: x is m, may_raise=lambda x: False, from_successors=True):
-                        ok = True
+                            (g.path(node, lambda x, m=m: x is m, may_raise=lambda x: False, from_successors=True) or
+                             g.path(m, lambda x: x is node, may_raise=lambda x: False, from_successors=True)):
+                        ok = True           # told its key right after, or right before, being registered
                 ctx.ob("lemma.key-invariant", fn, node.ast, ok,
                        "the field registered under %s is told the same key through __setkey__" % ast.unparse(key) if ok else
                        "the field registered under %s is not given that key: values are stored under a key the field table does not know" % ast.unparse(key),
